@@ -2,7 +2,7 @@
    Rust items modelled:
      vrp-core/src/construction/heuristics/insertions.rs :: InsertionHeuristic::process                       -> process (ploop)
                                                             apply_insertion_success / apply_insertion_failure  -> apply_success / apply_failure
-                                                            prepare_insertion_ctx / finalize_insertion_ctx     -> prepare / finalize
+                                                            prepare_insertion_ctx / finalize_insertion_ctx     -> prepare / finalize (incl. remove_empty_routes)
         (the bookkeeping of the four lists is Model/Homes.v `step`; the result of evaluate_all is an ORACLE `eres`;
          goal.notify_failure (tour_limits.rs) = `handled`: takes an unused route from the registry, pushes it EMPTY, returns true;
          it returns false when the registry is exhausted -> p_reg counts the unused registry routes)
@@ -76,7 +76,9 @@ Fixpoint ploop (fuel : nat) (ev : nat -> hsol -> eres) (q : quota) (i : nat) (st
 
 Definition measure (st : pstate) : nat := length (h_required (p_sol st)) + p_reg st.
 Definition prepare (st : pstate) : pstate := mkP (step (p_sol st) HPrepare) (p_reg st) (p_polls st) (p_ins st).
-Definition finalize (st : pstate) : pstate := mkP (step (p_sol st) HFinalize) (p_reg st) (p_polls st) (p_ins st).
+(* finalize_insertion_ctx: finalize_unassigned; accept_solution_state; solution.remove_empty_routes() *)
+Definition finalize (st : pstate) : pstate :=
+  mkP (step (step (p_sol st) HFinalize) HDropEmpty) (p_reg st) (p_polls st) (p_ins st).
 
 Definition process (ev : nat -> hsol -> eres) (q : quota) (st : pstate) : option pstate :=
   let st0 := prepare st in
